@@ -18,7 +18,7 @@ PROPS = {
                 "every arity, positional suffix or command tree up to 3 levels, aliases). Vectors: "
                 "derivations in random order/spelling (value known by construction), single-edit "
                 "mutations of them and random vectors over the definition's alphabet, both judged "
-                "by an independent reference recogniser. " + DISTINCT,
+                "by an independent reference recogniser.  Random vectors also spell flags with an attached value (`--verbose=yes`, `-v=`), which the grammar rejects. " + DISTINCT,
         "assumptions": COMMON_ASSUMPTIONS + [
             "The reference recogniser encodes the documented surface syntax; vectors that hit the "
             "two carve-outs of the quantifier are counted as inconclusive, not judged.",
@@ -73,14 +73,14 @@ PROPS = {
                 "OS-string/path targets); each derivation is run in its canonical spelling and in "
                 "random respellings of the same units in the same order (five argument spellings, "
                 "aliases, clusters, cluster ending in a short argument); outcomes of the pair are "
-                "compared, values compared byte-exact with the derivation. " + DISTINCT,
+                "compared, values compared byte-exact with the derivation.  One definition in twelve names an argument `-h`/`-V` like a built-in switch, one in eight names a flag `-h`; the built-in help/version switch written next to a flag (`-v -V`) and inside its cluster (`-vV`) must give the same outcome. " + DISTINCT,
         "assumptions": COMMON_ASSUMPTIONS + [
             "Spellings the statement does not list as interchangeable are not generated: "
             "`-ab=VALUE`, `-nVALUE` with an empty value or one starting with `=`, detached values "
             "starting with `-`.",
             "For failing lines only the outcome class is compared (error text quotes the spelling).",
         ],
-        "must_observe": ["pairs", "spell:LongEq", "spell:ShortJoined", "spell:ShortEq",
+        "must_observe": ["class:builtin-switch-in-cluster", "pairs", "spell:LongEq", "spell:ShortJoined", "spell:ShortEq",
                          "spell:clusters"],
         "needs_hooks": True,
         "technique": "runtime monitoring: metamorphic oracle over pairs of real runs (respelling) "
@@ -98,12 +98,12 @@ PROPS = {
                 "and invalid ones with an occurrence dropped, doubled or a foreign flag added); "
                 "each is linearised in canonical order and in random permutations of its named "
                 "occurrences that keep same-field order, positional order and the side of "
-                "command names and `--`; spelling is identical in both lines. " + DISTINCT,
+                "command names and `--`; spelling is identical in both lines.  Sibling commands share a letter (switch here, argument there) in a quarter of the definitions; two neighbouring flags that feed different fields are also written as one cluster in both orders (`-ab`, `-ba`). " + DISTINCT,
         "assumptions": COMMON_ASSUMPTIONS + [
             "For two failing lines only the outcome class is compared (the message may name a "
             "different item); differing texts are counted, not judged.",
         ],
-        "must_observe": ["pairs", "placement:named-between-positionals",
+        "must_observe": ["cluster-pairs", "pairs", "placement:named-between-positionals",
                          "placement:named-after-positional"],
         "needs_hooks": True,
         "technique": "runtime monitoring: metamorphic oracle over pairs of real runs "
@@ -149,7 +149,7 @@ PROPS = {
                 "invalid text (non-numeric, empty, `1x`, `-`, overflow, invalid UTF-8, "
                 "guard-tripping, parse-tripping; also as the value of the declared environment "
                 "variable of an item absent from the line) and the run must fail on stderr, with the "
-                "conversion/guard/parse message in the text unless the item is inside a choice. "
+                "conversion/guard/parse message in the text unless the item is inside a choice.  Chains of adjacent commands may end in a typed word with a default; every 16th case is a dedicated `sleep [SECONDS]` scenario next to trailing words of the enclosing level (F32). "
                 + DISTINCT,
         "assumptions": COMMON_ASSUMPTIONS + [
             "Expected conversion messages are obtained by calling the same FromStr impls in the "
@@ -157,7 +157,7 @@ PROPS = {
             "Environment variables declared by generated definitions are unset except for the "
             "one variable a case sets to an invalid value (single-threaded shards).",
         ],
-        "must_observe": ["class:sentence-mostly-absent", "class:invalid:environment-variable",
+        "must_observe": ["class:invalid:conversion:adjacent-command-defaulted-word", "class:sentence-mostly-absent", "class:invalid:environment-variable",
                          "class:invalid:conversion:plain",
                          "class:invalid:guard:plain", "class:invalid:parse:plain",
                          "message-present"],
@@ -175,7 +175,7 @@ PROPS = {
                 "commands; bare, optional, defaulted, many, some) among other fields. Derivations "
                 "using one alternative per round must yield exactly that alternative's value "
                 "(repeated choices: values in command-line order); lines mixing items of two "
-                "alternatives of a non-repeated choice must fail on stderr. " + DISTINCT,
+                "alternatives of a non-repeated choice must fail on stderr.  A third of the `many` choices are repeated choices between adjacent commands (`build --release test build`). " + DISTINCT,
         "assumptions": COMMON_ASSUMPTIONS + [
             "Branches of repeated choices contain only required single-occurrence items (an "
             "optional member would legitimately take occurrences meant for a later round).",
@@ -196,7 +196,7 @@ PROPS = {
                 "derivation and recogniser; a deeper level's option moved left of its command "
                 "name must fail; unknown / foreign / extra command names are judged by the "
                 "recogniser; `path.. --help` must print the help carrying the unique header "
-                "marker of exactly that level. " + DISTINCT,
+                "marker of exactly that level.  A fifth of the command choices sit under fallback/fallback_with. " + DISTINCT,
         "assumptions": COMMON_ASSUMPTIONS + [
             "An enclosing level's option right of a command name is outside the quantifier and "
             "counted as inconclusive.",
@@ -216,9 +216,9 @@ PROPS = {
                 "split; words right of it are replaced by dash-looking data (`--`, `--help`, "
                 "declared names, command names) and must arrive verbatim; `--name --` must fail; "
                 "moving the separator so that a strict word is on its left or a non-strict one on "
-                "its right must fail. " + DISTINCT,
+                "its right must fail.  Positionals under optional/repeating wrappers are hidden in a quarter of the cases; one definition in eight is `[LEFT-ONLY] .. -- RIGHT-ONLY...`; an absent or repeated left-side-only word does not close the strict words that follow. " + DISTINCT,
         "assumptions": COMMON_ASSUMPTIONS,
-        "must_observe": ["class:sentence-hostile-words-after-separator",
+        "must_observe": ["definitions-with-a-hidden-non-strict-positional", "class:sentence-hostile-words-after-separator",
                          "class:argument-name-then-separator",
                          "class:strict-word-left-of-separator",
                          "class:non-strict-word-right-of-separator"],
@@ -237,7 +237,7 @@ PROPS = {
                 "its own item at every boundary left of `--` (including between an argument name "
                 "and its value and inside adjacent blocks); outcome must be stdout carrying the "
                 "header (or version) of the innermost entered level (for invalid base lines: of a "
-                "level on the entered path). " + DISTINCT,
+                "level on the entered path).  Command choices may sit under fallback/fallback_with. " + DISTINCT,
         "assumptions": COMMON_ASSUMPTIONS + [
             "No definition declares the same short letter as flag and argument, so the "
             "ambiguous-cluster exemption never applies.",
@@ -290,7 +290,7 @@ PROPS = {
                 "file name) and the vector (sentences, hostile values, byte noise incl. invalid "
                 "UTF-8, help/version/completion requests) passed through the OS; the child calls "
                 "OptionParser::run(). Parent prediction from run_inner(Args::from(argv)"
-                ".set_name(file name)): status, stdout bytes, stderr bytes, sentinel iff value. "
+                ".set_name(file name)): status, stdout bytes, stderr bytes, sentinel iff value.  A quarter of the cases also ask a child for `--bpaf-complete-style-<shell>` somewhere on the line: the script on stdout, status 0, empty stderr, body not reached. "
                 + DISTINCT,
         "assumptions": COMMON_ASSUMPTIONS + [
             "NUL bytes cannot be passed through the OS and are stripped from vectors.",
@@ -298,7 +298,7 @@ PROPS = {
             "API (Display always renders the full form) and is counted as inconclusive.",
             "--bpaf-complete-style-* (static stubs, process exits by design) is exercised by C15.",
         ],
-        "must_observe": ["class:value", "class:stdout", "class:stderr", "class:completion",
+        "must_observe": ["class:completion-script-request", "class:value", "class:stdout", "class:stderr", "class:completion",
                          "argv0:non-utf8"],
         "max_inconclusive_ratio": 0.2,
         "technique": "runtime monitoring at the process boundary: real child processes observed "
@@ -316,7 +316,10 @@ PROPS = {
                 "root and inside a command. Rounds: (A) random valid environment state x a "
                 "derivation that knows the state (line beats variable, variable beats default, "
                 "flags count as present when the variable is set, even empty); the same line with "
-                "undeclared variables set must give the identical outcome; with the state applied "
+                "undeclared variables set must give the identical outcome; (B') the variable of an "
+                "item that is on the line, set to an invalid value, must not change the outcome; "
+                "a quarter of the levels have fallback_to_usage (usage instead of a failure on an "
+                "empty line, never instead of a value); with the state applied "
                 "`--help` must show the first declared variable of every visible root item as "
                 "set / valued exactly when the parser sees it set (empty counts as set); (B) an invalid value "
                 "in the variable of an item absent from the line must fail with the conversion "
@@ -329,7 +332,7 @@ PROPS = {
         "assumptions": COMMON_ASSUMPTIONS + [
             "Shard processes are single-threaded, so set_var/remove_var between cases is safe.",
         ],
-        "must_observe": ["class:line+environment", "help-variable-states-checked",
+        "must_observe": ["class:invalid-variable-of-item-on-the-line", "class:line+environment", "help-variable-states-checked",
                          "line_and_variable(precedence)",
                          "variable_only(fallback)", "class:invalid-variable-value",
                          "class:item-and-variable-absent", "child-processes",
@@ -351,14 +354,14 @@ PROPS = {
                 "(short and full) and error documents for noise vectors with very long items. "
                 "Each Doc is rendered at every width 1..=300 and unwrapped (width 60000); "
                 "evaluations counts renderings. distinct_nontrivial = distinct (definition, "
-                "vector, width) triples with a non-empty document.",
+                "vector, width) triples with a non-empty document. Arguments declare environment variables; in a third of the cases they are set to a text with an empty line and quotes while help is rendered.",
         "assumptions": COMMON_ASSUMPTIONS + [
             "Width is counted in characters (chars), as bpaf does; East Asian wide characters are "
             "not given double width.",
             "A long line is allowed when it is a code line of a generated help text, a single "
             "word after its indentation, or a known definition term followed by one word.",
         ],
-        "must_observe": ["renderings", "doc:help", "doc:error", "short-help-texts-checked",
+        "must_observe": ["definitions-with-variables-set", "renderings", "doc:help", "doc:error", "short-help-texts-checked",
                          "overlong:single-word(allowed)"],
         "technique": "runtime monitoring: differential oracle between renderings of the same Doc "
                      "(wrapped vs unwrapped, whitespace-insensitive) + line classifier + "
@@ -378,13 +381,13 @@ PROPS = {
                 "help/version flags; order of description/usage/header/lists/footer; item lists "
                 "unchanged when hide_usage/custom_usage are removed; for shown names a sentence "
                 "using exactly that spelling must be accepted. evaluations = help screens + "
-                "acceptance runs; distinct_nontrivial = distinct (level, vector) pairs.",
+                "acceptance runs; distinct_nontrivial = distinct (level, vector) pairs. Levels may be `construct!([named_only, cmd, words])`; every level's help is also requested through the root parser (`cmd sub --help`) and must list the terms of the level's own screen.",
         "assumptions": COMMON_ASSUMPTIONS + [
             "Names, metavariables and help strings are unique per item, so matching is exact.",
             "Members of adjacent groups without help text count as listed when they appear on "
             "the group's own usage line.",
         ],
-        "must_observe": ["help-screens", "items-checked", "commands-checked",
+        "must_observe": ["help-screens-through-the-root", "help-screens", "items-checked", "commands-checked",
                          "usage-wrapper-pairs", "shown-names-tried", "depth:1"],
         "technique": "runtime monitoring: output-protocol monitor (help-screen tokenizer) checked "
                      "against the definition's declared items + acceptance runs of shown names",
@@ -403,12 +406,12 @@ PROPS = {
                 "classifier and escape scanner (only bpaf's requests/escapes), one section per "
                 "visible level mentioning every visible item, no hidden item mentioned. "
                 "evaluations = documents rendered; distinct_nontrivial = distinct (definition, "
-                "format) pairs.",
+                "format) pairs. Half of the definitions with two command subtrees give a nested command of the second the name and description of one in the first (`app remote add` / `app stash add`).",
         "assumptions": COMMON_ASSUMPTIONS + [
             "groff/man/zsh are not installed: the manpage is judged lexically against the set of "
             "requests and escapes bpaf's renderer emits.",
         ],
-        "must_observe": ["rendered:markdown", "rendered:html", "rendered:manpage",
+        "must_observe": ["definitions-with-same-named-commands-on-different-paths", "rendered:markdown", "rendered:html", "rendered:manpage",
                          "html_tags_checked", "roff_control_lines_checked",
                          "roff_escapes_checked", "mentions-checked", "hidden-checked"],
         "technique": "runtime monitoring: output-protocol monitors (HTML tag-stack lexer, roff "
@@ -486,7 +489,7 @@ PROPS = {
                 "clusters), help/description strings with code fences, indented code and several "
                 "paragraphs, group_help, hidden items, completers, and vectors ending in ``, `-`, "
                 "`--`. evaluations = executions over all builds; distinct_nontrivial = distinct "
-                "lines of the reference stream.",
+                "lines of the reference stream. One corpus definition in six has a command reachable from two branches that differ only in the footer.",
         "assumptions": [
             "Built from /repo's working tree in release mode with overflow-checks; hooks are not "
             "compiled into these variants (cfg(bpaf_verif) off), so the comparison is between "
@@ -515,6 +518,7 @@ PROPS = {
                 "comments as help, descr/header/footer blocks and explicit descr/header/footer "
                 "annotations, version, tuple structs, unit variants, field variants, tuple "
                 "variants, command variants with custom names and aliases, skipped variants, "
+                "explicit header/footer on command variants, "
                 "top-level command structs with short/long/help/adjacent/fallback_to_usage and "
                 "fallback/hide/hide_usage/custom_usage decorations used through external, "
                 "nested derived enums through external) together with the hand-written combinator equivalent produced by an "
